@@ -82,10 +82,12 @@ class Renderer:
         branches = " ".join("| =%s => Ok" % q_val(v) for v in s["acc"]) or "| []"
         return "#%s { %s }" % (ty, branches)
 
-    def script(self, idx, parent_regs=None):
-        """Steps of script `idx` (1-based) as a list of Quiver step strings."""
-        self.n += 1
-        sid = self.n
+    def script(self, idx, parent_regs=None, sid=None):
+        """Steps of script `idx` (1-based) as a list of Quiver step strings.  sid: the register-name space
+        (the lines of a session share the entry process's: its registers are the REPL's variables)."""
+        if sid is None:
+            self.n += 1
+            sid = self.n
         steps = []
         if parent_regs:
             for i, pe in enumerate(parent_regs):
@@ -124,3 +126,10 @@ class Renderer:
 
 def render(scn):
     return ", ".join(Renderer(scn).script(1))
+
+
+def render_lines(scn):
+    """a REPL session: one source text per line; line k runs script scn["lines"][k] in the persistent process"""
+    r = Renderer(scn)
+    r.n = 1
+    return [", ".join(r.script(idx, sid=1)) for idx in scn.get("lines", [1])]
